@@ -26,7 +26,8 @@ EXPLANATION = (
     'before it waits, ponderHit installs the computed limits before it clears the ponder flag, startThread applies the one-legal-move '
     'clamp before handing the limits to the search; (3) in negaScout the poll block (counter <= 0 -> shouldStop -> throw) dominates every '
     'recursive descent, every make-move in negaScout / quiesce / the root loop is followed by a decrement of the poll counter, the poll '
-    'interval is at most 1000 nodes, and shouldStop returns true exactly on elapsed >= the limit selected by searchNeedMoreTime.')
+    'interval is at most 1000 nodes, and shouldStop returns true exactly on elapsed >= the limit selected by searchNeedMoreTime.'
+    ' The limit shouldStop compares the elapsed time with is, on every path, bounded by the hard limit (hard, soft, or min(.., hard)).')
 UNDECIDED = ('wall-clock latency and the virtual-clock bound "within one polling interval" (timing is not a static quantity); the '
              'behaviour of the search between two polls.')
 ASSUMPTIONS = ['input domain of the property: wtime/btime 1..10^7 ms, inc 0..10^5, movestogo 0..100, BufferTime and the time-usage parameters inside their declared Param<> ranges',
